@@ -14,6 +14,8 @@ echo "== demo with the change"; (eval "$DEMO") > /tmp/confirm-$ID-b.log 2>&1; B=
 git checkout -q -- . && git clean -fdq -e target -e .verif-harness
 echo "demo exit without change: $A   with change: $B"
 cd /verif
+# evidence written while /repo carries the change must not replace the committed evidence
+EVBAK="$(mktemp -d)"; cp -a /verif/evidence/. "$EVBAK/"
 git -C /repo apply "$OUT/$ID/patch.diff" || { echo "patch does not apply to /repo"; exit 2; }
 for C in "$ID" "$@"; do
   echo "== ./check $C quick with the change in /repo"
@@ -23,3 +25,4 @@ for C in "$ID" "$@"; do
 done
 git -C /repo checkout -- .
 git -C /repo status --short | head -3
+cp -a "$EVBAK/." /verif/evidence/; rm -rf "$EVBAK"
